@@ -97,6 +97,7 @@ pub fn expand(
 
     let render = quote! {
         #[allow(deprecated)] // omit warnings on deprecated fields/variants
+        #[allow(unreachable_code)] // omit warnings for `!` and other unreachable types
         #[automatically_derived]
         // TODO: Use `derive_more::core::error::Error` once `error_in_core` Rust feature is
         //       stabilized.
